@@ -24,7 +24,7 @@ func New(seed int64) *G {
 	return &G{
 		R:        rand.New(rand.NewSource(seed)),
 		Keys:     []string{"a", "b", "c", "d", "e", "x", "y", "name", "k.1", "é"},
-		Strs:     []string{"x", "y", "hello", "", "1", "true", "null", "a b", "1.5", "é", "v:w", "#c", "- d", "{a}", "[z]"},
+		Strs:     []string{"x", "y", "hello", "", "1", "true", "null", "a b", "1.5", "é", "v:w", "#c", "- d", "{a}", "[z]", "<<"},
 		MaxDepth: 3,
 		MaxWidth: 3,
 		NullP:    0.05,
